@@ -21,6 +21,14 @@ import Driver.Bucket
     rput <helper> <atomic 0|1> <old: hexpath=content,...|-> <jobs> <faults>   REAL write(2)/close(2) failures of the
                                                    files behind a disk bucket (part X): -> err|ok:<count>|<dump>
     dclose <atomic 0|1> <first close failed 0|1>   the SECOND Close of an object -> closed | not-closed
+    pre <old: hexpath=content,...|-> <wobj|copy|untar|unzip line>   the same helper started from a destination that
+                                                   already holds content (part E: longer / shorter / equal-length / identical)
+    pprefix <old> <chunks>                         a PLAIN disk put over `old`, observed after Put, every Write and Close
+    rover <backend> <old> <ops>                    a reader opened on `old` stays open across puts (part E5); ops, comma
+                                                   separated: r<n> read n bytes | R read to the end | p<c> completed put of the
+                                                   same path | o<c> of another path | s<c> / w<c> / x<c> in-flight writer of the
+                                                   same path / another path / another bucket | c close the oldest in-flight
+                                                   writer  -> <what the reader delivered>|<object afterwards>
   The walk lines are evaluated with WalkRule.fixed (handoff/C15-walk-callback-error.diff).
   chunks: c1+c2+... or "-" (no chunk); faults: hexpath:<p|w|c>:<idx>,... or "-".
   The helpers' error plumbing is instantiated with the REGENERATED BufGen.AstFacts.facts.
@@ -110,7 +118,67 @@ def staleListing : String → Option (List Bool)
   | "atomic-put-temp-file-renamed-before-visited" => some [false, false, false, true, false, false]
   | _ => none
 
+def parseROp (s : String) : Option ROp :=
+  match s.toList with
+  | ['R'] => some (.read 1000000000)
+  | ['c'] => some .closeW
+  | 'r' :: n => (String.ofList n).toNat?.map .read
+  | 'p' :: c => some (.put c)
+  | 'o' :: c => some (.other c)
+  | 's' :: c => some (.wSame c)
+  | 'w' :: c => some (.wOther c)
+  | 'x' :: c => some (.wOther c)
+  | _ => none
+
+/-- The helpers of part A started from destination `d0` (part A: empty; part E: previous content). -/
+def destLine (d0 : Dest) : List String → Option String
+  | ["wobj", helper, h, cs, fs] =>
+    match hexDecode h, parseSched fs with
+    | some p, some s =>
+      let r := match helper with
+        | "copyreader" => copyReader fx s d0 (s2l p) (parseChunks cs)
+        | "forwriteobject" => forWriteObject fx s d0 (s2l p) (parseChunks cs)
+        | "copyreadobject" => copyReadObject fx s d0 (s2l p) (parseChunks cs)
+        | _ => putPath fx s d0 (s2l p) (parseChunks cs)
+      some (res r.1 ++ "|" ++ showDest r.2)
+    | _, _ => none
+  | ["copy", js, fs] =>
+    match parseJobs js, parseSched fs with
+    | some jobs, some s =>
+      let r := copyAll fx s d0 jobs
+      some (res r.1 ++ ":" ++ toString r.2.2 ++ "|" ++ showDest r.2.1)
+    | _, _ => none
+  | ["untar", es, fs] =>
+    match parseJobs es, parseSched fs with
+    | some ents, some s =>
+      let r := untarAll fx s d0 ents
+      some (res r.1 ++ "|" ++ showDest r.2)
+    | _, _ => none
+  | ["unzip", es, fs] =>
+    match parseJobs es, parseSched fs with
+    | some ents, some s =>
+      let r := unzipAll fx s d0 ents
+      some (res r.1 ++ "|" ++ showDest r.2)
+    | _, _ => none
+  | _ => none
+
 def handle : List String → String
+  | "pre" :: old :: rest =>
+    match parseJobs old with
+    | some o => (destLine ⟨o.map fun (p, cs) => (p, joinContent cs), []⟩ rest).getD "bad-op"
+    | none => "bad-op"
+  | ["rover", _backend, old, ops] =>
+    match (if ops = "-" then some [] else (ops.splitOn ",").mapM parseROp) with
+    | some os =>
+      let r := readerAcross .asCoded old.toList os
+      String.ofList r.1 ++ "|" ++ String.ofList r.2
+    | none => "bad-op"
+  | ["pprefix", old, cs] =>
+    let o := if old = "-" then none else some old
+    let chunks := parseChunks cs
+    let n := chunks.length
+    -- after Put (1), after Write i (i+2), after Close (n+2: nothing more happens to the object)
+    ",".intercalate ((List.range (n + 3)).map fun j => optS (plainPrefix o chunks (min j (n + 1))))
   | ["walkcb", helper, src, n, k, p, ev] =>
     match parseWalkHelper helper, n.toNat? with
     | some h, some nn =>
@@ -141,34 +209,6 @@ def handle : List String → String
     | _, _, _, _ => "bad-op"
   | ["dclose", atm, _first] =>
     if secondCloseIsErrClosed .asCoded (atm == "1") then "closed" else "not-closed"
-  | ["wobj", helper, h, cs, fs] =>
-    match hexDecode h, parseSched fs with
-    | some p, some s =>
-      let r := match helper with
-        | "copyreader" => copyReader fx s ⟨[], []⟩ (s2l p) (parseChunks cs)
-        | "forwriteobject" => forWriteObject fx s ⟨[], []⟩ (s2l p) (parseChunks cs)
-        | "copyreadobject" => copyReadObject fx s ⟨[], []⟩ (s2l p) (parseChunks cs)
-        | _ => putPath fx s ⟨[], []⟩ (s2l p) (parseChunks cs)
-      res r.1 ++ "|" ++ showDest r.2
-    | _, _ => "bad-op"
-  | ["copy", js, fs] =>
-    match parseJobs js, parseSched fs with
-    | some jobs, some s =>
-      let r := copyAll fx s ⟨[], []⟩ jobs
-      res r.1 ++ ":" ++ toString r.2.2 ++ "|" ++ showDest r.2.1
-    | _, _ => "bad-op"
-  | ["untar", es, fs] =>
-    match parseJobs es, parseSched fs with
-    | some ents, some s =>
-      let r := untarAll fx s ⟨[], []⟩ ents
-      res r.1 ++ "|" ++ showDest r.2
-    | _, _ => "bad-op"
-  | ["unzip", es, fs] =>
-    match parseJobs es, parseSched fs with
-    | some ents, some s =>
-      let r := unzipAll fx s ⟨[], []⟩ ents
-      res r.1 ++ "|" ++ showDest r.2
-    | _, _ => "bad-op"
   | ["archw", kind, b, c] =>
     res ((if kind = "tar" then tarOut fx else zipOut fx) (b == "1") (c == "1"))
   | ["flush", bits] =>
@@ -201,7 +241,7 @@ def handle : List String → String
       let d := atomicPrefix o (parseChunks cs) n
       "final" ++ optS d.final ++ "|temp" ++ optS d.temp
     | none => "bad-op"
-  | _ => "bad-op"
+  | l => (destLine ⟨[], []⟩ l).getD "bad-op"
 
 def run : IO Unit := runLines handle
 
